@@ -260,6 +260,9 @@ def run(ck):
       if r['kind'] == 'rule_compile' and p.depth == 0 and 'too deep' in r.get('message', ''):
         ck.violation('recursion-depth-0-rejected', '@Recursive(%s, 0) is rejected ("Recursion in this rule is too deep")' % q, rp)
         continue
+      if r['kind'] == 'too_big':
+        ck.features['capacity-skipped'] += 1
+        continue
       if r['kind'] != 'ok':
         ck.violation('c03:%s:outcome:%s' % (info['shape'], r['kind']),
                      'recursive predicate %s (depth %d): %s %s' % (q, p.depth, r['kind'], r.get('message', '')[:200]), rp)
